@@ -1774,6 +1774,18 @@ def battery_plan():
 
     def op(name, forced, r=1, **kw):
         ops.append(dict({'op': name, 's': [], 'r': r, 'forced': forced}, **kw))
+    # first of all (before another entry can touch them): the process-wide
+    # settings the history leaves behind
+    op('globals_fixed', [p0])
+    # ... then the entries that depend on what was identified / parsed last
+    # (the battery's own later entries would overwrite that)
+    t = add('text:crtf', {'t': 'datafile',
+                          'path': 'io/crtf/tests/data/CRTFgeneral.crtf'})
+    op('mislabel_fixed', [t], ext='.reg')
+    t = add('text:ds9', {'t': 'datafile',
+                         'path': 'io/ds9/tests/data/ds9.fk5.reg'})
+    op('mislabel_fixed', [t], ext='.crtf')
+    op('mislabel_fixed', [t], ext='.fits')
     for k, line in enumerate(DS9_LINES):
         t = add('text:ds9', {'t': 'lit', 'v':
                              '# Region file format: DS9\n' + line + '\n'})
@@ -1855,13 +1867,6 @@ def battery_plan():
     cp = add('pixcomp', gen.compound_region(rng, sky=False, depth=1))
     cs = add('skycomp', gen.compound_region(rng, sky=True, depth=1))
     op('compound_fixed', [cp, cs, w, p0, s0])
-    t = add('text:crtf', {'t': 'datafile',
-                          'path': 'io/crtf/tests/data/CRTFgeneral.crtf'})
-    op('mislabel_fixed', [t], ext='.reg')
-    t = add('text:ds9', {'t': 'datafile',
-                         'path': 'io/ds9/tests/data/ds9.fk5.reg'})
-    op('mislabel_fixed', [t], ext='.crtf')
-    op('mislabel_fixed', [t], ext='.fits')
     c1 = add('pixreg', gen.region_from_tokens(
         'EllipsePixelRegion', gen.draw_tokens(rng, 'EllipsePixelRegion',
                                               small=True)))
@@ -2005,6 +2010,29 @@ def _battery_ops(ex):
                         R.CirclePixelRegion(p, 2).visual,
                         R.PolygonPixelRegion(R.PixCoord([1, 5, 3],
                                                         [1, 1, 6])).origin]
+
+    def globals_fixed(a, op):
+        # process-wide settings of the libraries underneath, which a call
+        # into regions has no business changing (and through which one call
+        # could reach the next), and a plain text artist that shows them
+        p = a.slot(('x',))
+
+        def fn():
+            import decimal
+            import locale
+            import matplotlib as mpl
+            import astropy.units as u
+            import regions as R
+            t = R.TextPixelRegion(p, 'canary').as_artist()
+            return [sorted((k, repr(v)) for k, v in mpl.rcParams.items()),
+                    sorted((k, repr(v)) for k, v in
+                           np.get_printoptions().items()),
+                    sorted(np.geterr().items()), os.getcwd(),
+                    sys.getrecursionlimit(), locale.setlocale(locale.LC_ALL),
+                    repr(decimal.getcontext()),
+                    len(u.get_current_unit_registry().equivalencies),
+                    t, t.get_usetex(), t.get_fontfamily()]
+        return fn
 
     def formats_fixed(a, op):
         return lambda: [Region.get_formats(), Regions.get_formats()]
